@@ -55,6 +55,7 @@ type Plan struct {
 	FullAfter  int64     `json:"full_after,omitempty"` // > 0: the disk is full once this many bytes have been written: that write is cut short and every later write-side operation fails with ENOSPC
 	Sched      SchedPlan `json:"sched,omitempty"`
 	CPUs       int       `json:"cpus,omitempty"`
+	Heap       uint64    `json:"heap,omitempty"` // != 0: the heap is fragmented before main runs (seeded), so that addresses handed out later, and their order, differ from run to run
 	TickBudget int64     `json:"tick_budget"`
 	Root       string    `json:"root,omitempty"` // path prefix stripped from logged paths
 	Log        string    `json:"log,omitempty"`
@@ -98,6 +99,9 @@ func init() {
 	}
 	if ThePlan.TickBudget <= 0 {
 		ThePlan.TickBudget = 1 << 40
+	}
+	if ThePlan.Heap != 0 {
+		fragmentHeap(ThePlan.Heap)
 	}
 	if ThePlan.Log != "" {
 		f, err := os.OpenFile(ThePlan.Log, os.O_CREATE|os.O_WRONLY|os.O_TRUNC, 0o644)
@@ -440,3 +444,40 @@ func (it *Iter[K, V]) Next() bool {
 
 func (it *Iter[K, V]) Key() K { return it.k }
 func (it *Iter[K, V]) Val() V { return it.v }
+
+// heapKeep keeps part of the noise alive for the whole run.
+var heapKeep [][]*byte
+
+// fragmentHeap allocates a few thousand pointer-carrying objects in each small
+// size class, drops a seeded subset and lets the collector sweep them: the
+// free slots that later allocations fill are then scattered over many spans, so
+// two objects allocated one after the other need not lie in address order, and
+// which addresses they get depends on the seed.  (On a real machine the same
+// is brought about by the collector's timing; output that depends on
+// addresses - sorting by pointer, %p, maps keyed by pointer iterated "in
+// order" - is nondeterministic in the sense of the property.)
+func fragmentHeap(seed uint64) {
+	x := seed | 1
+	next := func() uint64 {
+		x ^= x << 13
+		x ^= x >> 7
+		x ^= x << 17
+		return x
+	}
+	var all [][]*byte
+	for _, words := range []int{1, 2, 3, 4, 5, 6, 7, 8, 10, 12, 14, 16, 20, 24, 32, 48, 64} {
+		n := 1024 + int(next()%3072)
+		for i := 0; i < n; i++ {
+			all = append(all, make([]*byte, words))
+		}
+	}
+	for i := range all {
+		if next()%10 < 3 {
+			heapKeep = append(heapKeep, all[i])
+		}
+		all[i] = nil
+	}
+	all = nil
+	runtime.GC()
+	runtime.GC()
+}
